@@ -109,3 +109,71 @@ pub fn str_repeat(s: &String, n: usize) -> (r: String)
 pub fn array_elements(a: &Rc<Array>) -> (r: Vec<Rc<Object>>) ensures r@ == a@ { unimplemented!() }
 #[verifier::external_body]
 pub fn array_new(v: Vec<Rc<Object>>) -> (r: Array) ensures r@ == v@ { unimplemented!() }
+
+// ---- arm support ----
+pub open spec fn u16_of_be(hi: u8, lo: u8) -> int { hi as int * 256 + lo as int }
+#[verifier::external_body]
+pub fn read_u16_be(v: &Vec<u8>, a: usize, b: usize) -> (r: u16)
+    requires a + 2 <= v@.len(), b == a + 2 || b == v@.len()   // BigEndian::read_u16 reads the first two bytes of the slice
+    ensures r as int == u16_of_be(v@[a as int], v@[a + 1])
+{ unimplemented!() }
+#[verifier::external_body]
+pub fn two_bytes(v: &Vec<u8>, a: usize) -> (r: [u8; 2])
+    requires a + 2 <= v@.len()
+    ensures r[0] == v@[a as int], r[1] == v@[a + 1]
+{ unimplemented!() }
+#[verifier::external_body]
+pub fn u16_from_be_bytes(b: [u8; 2]) -> (r: u16) ensures r as int == u16_of_be(b[0], b[1]) { u16::from_be_bytes(b) }
+
+// C06: the documented truthiness table as one (uninterpreted for containers) spec function; the scalar rows are
+// proved on the real Object::is_falsey by the ops harness c06_is_falsey_scalars
+pub uninterp spec fn is_falsey_spec(o: Object) -> bool;
+#[verifier::external_body]
+pub fn obj_is_falsey(o: &Object) -> (r: bool) ensures r == is_falsey_spec(*o) { unimplemented!() }
+
+#[verifier::external_body]
+pub fn constants_get<'a>(v: &'a Vec<Rc<Object>>, i: usize, line: usize) -> (r: Result<&'a Rc<Object>, RTError>)
+    ensures r is Ok <==> i < v@.len(), r matches Ok(x) ==> *x == v@[i as int], r matches Err(e) ==> e.line == line
+{ unimplemented!() }
+
+#[verifier::external_body]
+pub fn obj_eq(a: &Rc<Object>, b: &Rc<Object>) -> (r: bool) { unimplemented!() }
+pub open spec fn is_number_spec(o: Object) -> bool { o is Integer || o is Float }
+#[verifier::external_body]
+pub fn obj_is_number(o: &Rc<Object>) -> (r: bool) ensures r == is_number_spec(**o) { unimplemented!() }
+// Neg for &Object panics outside Integer/Float (ops harness c09_neg_model proves it total on those)
+#[verifier::external_body]
+pub fn obj_neg(o: &Rc<Object>) -> (r: Object) requires is_number_spec(**o) { unimplemented!() }
+#[verifier::external_body]
+pub fn hmap_new(p: PairsMap) -> (r: HMap) { unimplemented!() }
+#[verifier::external_body] pub struct PairsMap { _p: () }
+// VM::build_map: copies stack[start..end] pairwise into a HashMap; rejects invalid keys with an error at `line`
+#[verifier::external_body]
+pub fn vm_build_map(vm: &VM, start: usize, end: usize, line: usize) -> (r: Result<PairsMap, RTError>)
+    requires start <= end <= vm.sp, vm_wf(vm)
+    ensures r matches Err(e) ==> e.line == line
+{ unimplemented!() }
+#[verifier::external_body]
+pub fn vm_exec_index_expr(vm: &mut VM, left: Rc<Object>, index: Rc<Object>, setval: Option<Rc<Object>>, line: usize) -> (r: Result<(), RTError>)
+    requires vm_wf(old(vm))
+    ensures vm_wf(final(vm)), same_shape(old(vm), final(vm)), r matches Err(e) ==> e.line == line,
+            final(vm).frames_index == old(vm).frames_index, final(vm).frames@ == old(vm).frames@
+{ unimplemented!() }
+#[verifier::external_body]
+pub fn vm_exec_prop_expr(vm: &VM, left: Rc<Object>, prop: u8, setval: Option<Rc<Object>>, line: usize) -> (r: Result<Rc<Object>, RTError>)
+    ensures r matches Err(e) ==> e.line == line
+{ unimplemented!() }
+#[verifier::external_body]
+pub fn vm_exec_dollar_expr(vm: &mut VM, line: usize) -> (r: Result<(), RTError>)
+    requires vm_wf(old(vm))
+    ensures vm_wf(final(vm)), same_shape(old(vm), final(vm)), r matches Err(e) ==> e.line == line,
+            final(vm).frames_index == old(vm).frames_index, final(vm).frames@ == old(vm).frames@
+{ unimplemented!() }
+#[verifier::external_body]
+pub fn builtinfns_get(i: usize) -> (r: Option<&'static BuiltinFunction>) { unimplemented!() }
+#[verifier::external_body]
+pub fn clone_builtin(b: &BuiltinFunction) -> (r: BuiltinFunction) { unimplemented!() }
+#[verifier::external_body]
+pub fn closure_set_free(c: &Rc<Closure>, i: usize, v: Rc<Object>) requires i < c.free@.len() { unimplemented!() }
+#[verifier::external_body]
+pub fn clone_frame(f: &Frame) -> (r: Frame) ensures r == *f { unimplemented!() }
